@@ -21,6 +21,8 @@ import (
 
 const NK = 96
 
+const bigBase = 1<<53 + 1
+
 // keyNames: eight awkward names, then plain ones (the bulk scenarios of C14 fill
 // the store well beyond any small-size fast path).
 var keyNames = func() (k [NK]string) {
@@ -57,6 +59,12 @@ func valueOf(code string) any {
 		return true
 	case code == "bf":
 		return false
+	case code[0] == 'I': // an integer beyond 2^53 (not representable as a float64): int or int64
+		n, _ := strconv.Atoi(code[1:])
+		if n%2 == 0 {
+			return bigBase + n
+		}
+		return int64(bigBase + n)
 	case code[0] == 'i':
 		n, _ := strconv.Atoi(code[1:])
 		return n
@@ -93,7 +101,14 @@ func codeOf(v any) string {
 		}
 		return "bf"
 	case int:
+		if x > bigBase && x < bigBase+1_000_000 && (x-bigBase)%2 == 0 {
+			return "I" + strconv.Itoa(x-bigBase)
+		}
 		return "i" + strconv.Itoa(x)
+	case int64:
+		if x > bigBase && x < bigBase+1_000_000 && (x-bigBase)%2 == 1 {
+			return "I" + strconv.Itoa(int(x)-bigBase)
+		}
 	case float64:
 		return "f" + strconv.Itoa(int(x))
 	case []int:
@@ -203,6 +218,10 @@ func apply(s state, op *Op, snapArg state) (state, string) {
 		return s, ""
 	case "getint", "getintor":
 		c := s[op.Key]
+		if c != "" && c[0] == 'I' {
+			n, _ := strconv.Atoi(c[1:])
+			return s, strconv.Itoa(bigBase + n) // exactly the integer that was stored
+		}
 		if c != "" && (c[0] == 'i' || c[0] == 'f') {
 			return s, c[1:]
 		}
@@ -212,6 +231,10 @@ func apply(s state, op *Op, snapArg state) (state, string) {
 		return s, "0"
 	case "getfloat":
 		c := s[op.Key]
+		if c != "" && c[0] == 'I' {
+			n, _ := strconv.Atoi(c[1:])
+			return s, strconv.FormatFloat(float64(bigBase+n), 'f', -1, 64) // Go's conversion of the value
+		}
 		if c != "" && c[0] == 'i' {
 			return s, c[1:]
 		}
@@ -242,6 +265,10 @@ func apply(s state, op *Op, snapArg state) (state, string) {
 		return s, "nil"
 	case "getfloator":
 		c := s[op.Key]
+		if c != "" && c[0] == 'I' {
+			n, _ := strconv.Atoi(c[1:])
+			return s, strconv.FormatFloat(float64(bigBase+n), 'f', -1, 64)
+		}
 		if c != "" && c[0] == 'i' {
 			return s, c[1:]
 		}
@@ -265,6 +292,9 @@ func apply(s state, op *Op, snapArg state) (state, string) {
 			return s, "null"
 		case c == "bt", c == "bf":
 			return s, strconv.FormatBool(c == "bt")
+		case c[0] == 'I': // through JSON into an any: a float64
+			n, _ := strconv.Atoi(c[1:])
+			return s, strconv.FormatFloat(float64(bigBase+n), 'f', -1, 64)
 		case c[0] == 'i':
 			return s, c[1:]
 		case c[0] == 'f':
@@ -524,6 +554,9 @@ func (g *genState) val() string {
 	}
 	if g.r.IntN(25) == 0 {
 		return "a" + strconv.Itoa(g.nextID)
+	}
+	if g.r.IntN(12) == 0 {
+		return "I" + strconv.Itoa(g.nextID)
 	}
 	if g.nested && g.r.IntN(2) == 0 || g.r.IntN(20) == 0 {
 		return "n" + strconv.Itoa(g.nextID)
